@@ -51,7 +51,7 @@ type ScConf struct {
 }
 
 type ScEndpoint struct {
-	Kind        string `json:"kind"` // custom | tcp_server | udp_server | tcp_client | udp_client | serial | bad_address | busy_port
+	Kind        string `json:"kind"` // custom | tcp_server | udp_server | tcp_client | udp_client | udp_broadcast | serial | bad_address | busy_port
 	SerialFails int    `json:"serial_fails"`
 	LMode       string `json:"lmode"` // tcp_client: initial behaviour of the fake server (accept | refuse | accept_close)
 	Drain       bool   `json:"drain"` // custom: data queued before Close is still readable after Close (like a pipe)
@@ -294,6 +294,8 @@ type player struct {
 	serialFailsLeft map[int]int
 	peerSeq   map[int]int
 	peerEnded map[[2]int]bool
+	pktConns  map[int]net.PacketConn // fake UDP server of a udp_client endpoint / listener of a udp_broadcast endpoint
+	udpSrc    map[string]int         // udp_client: source address of the node's socket -> channel instance
 	serials   []*ctlRWC
 	lastAct   int64
 	reuse     map[int]*common.MessageNamedValueInt
@@ -523,6 +525,10 @@ func (p *player) consumer() {
 				p.mu.Lock()
 				peer = p.peerSeq[ep]
 				p.mu.Unlock()
+			} else if k == "udp_client" {
+				peer = inst
+			} else if k == "udp_broadcast" {
+				peer = 1
 			}
 			p.rec.Put(M{"e": "Ev", "type": "open", "ep": ep, "inst": inst, "dup": dup, "label": e.Channel.String(),
 				"peer": peer, "t": p.ms()})
@@ -713,6 +719,58 @@ func (p *player) acceptLoop(ep int, l net.Listener) {
 
 var _ = runtime.NumGoroutine
 
+// pktPeer lets the feed step write datagrams to the node through the fake server's own socket.
+type pktPeer struct {
+	pc net.PacketConn
+	to net.Addr
+}
+
+func (k *pktPeer) Read([]byte) (int, error)         { return 0, io.EOF }
+func (k *pktPeer) Write(b []byte) (int, error)      { return k.pc.WriteTo(b, k.to) }
+func (k *pktPeer) Close() error                     { return nil }
+func (k *pktPeer) LocalAddr() net.Addr              { return k.pc.LocalAddr() }
+func (k *pktPeer) RemoteAddr() net.Addr             { return k.to }
+func (k *pktPeer) SetDeadline(time.Time) error      { return nil }
+func (k *pktPeer) SetReadDeadline(time.Time) error  { return nil }
+func (k *pktPeer) SetWriteDeadline(time.Time) error { return nil }
+
+// udpPeer records what the node sends to the fake UDP server (udp_client) or to the broadcast address.
+// udp_client: each re-opened channel dials from a new source port; a source seen for the first time belongs to the
+// channel instance that is open then (scenarios write only after the open event was received). Anything else is
+// recorded as Ambiguous and makes the run inconclusive, never a verdict.
+func (p *player) udpPeer(ep int, pc net.PacketConn, broadcast bool) {
+	buf := make([]byte, 4096)
+	for {
+		n, src, err := pc.ReadFrom(buf)
+		if err != nil {
+			return
+		}
+		peer := 1
+		if !broadcast {
+			key := fmt.Sprintf("%d/%s", ep, src.String())
+			p.mu.Lock()
+			var ok bool
+			if peer, ok = p.udpSrc[key]; !ok {
+				peer = p.nInst[ep]
+				amb := peer == 0 || p.peers[[2]int{ep, peer}] != nil
+				if !amb {
+					p.udpSrc[key] = peer
+					p.peers[[2]int{ep, peer}] = &pktPeer{pc: pc, to: src}
+				}
+				p.mu.Unlock()
+				if amb {
+					p.rec.Put(M{"e": "Ambiguous", "what": "datagram from a source that cannot be attributed to a channel instance", "ep": ep})
+					continue
+				}
+			} else {
+				p.mu.Unlock()
+			}
+		}
+		p.touch()
+		p.rec.Put(M{"e": "TW", "ep": ep, "peer": peer, "bytes": B(append([]byte{}, buf[:n]...)), "t": p.ms()})
+	}
+}
+
 func (p *player) peerReader(ep, peer int, c net.Conn) {
 	buf := make([]byte, 4096)
 	for {
@@ -745,7 +803,7 @@ func cmdNode(o opts) {
 		nInst: map[int]int{}, opened: map[[2]int]bool{}, closedEv: map[[2]int]bool{}, gates: map[string]*gate{},
 		consumerOn: true, evClosed: make(chan struct{}), closeDone: make(chan struct{}), writers: map[int]chan func(){},
 		peers: map[[2]int]net.Conn{}, listeners: map[int]net.Listener{}, lmode: map[int]string{}, serialFailsLeft: map[int]int{},
-		peerSeq: map[int]int{}, expect: map[int]int64{}, peerEnded: map[[2]int]bool{},
+		peerSeq: map[int]int{}, expect: map[int]int64{}, peerEnded: map[[2]int]bool{}, pktConns: map[int]net.PacketConn{}, udpSrc: map[string]int{},
 		reuse: map[int]*common.MessageNamedValueInt{}, hangFds: map[int]int{}, hangConns: map[int][]net.Conn{}}
 	p.consCond = sync.NewCond(&p.mu)
 	p.pauseReq = make(chan struct{})
